@@ -513,6 +513,7 @@ class Box(Arrow):
                 # Handles numpy 0-d arrays, which are actually not iterable.
                 if not hasattr(data, "shape") or data.shape != ():
                     return set().union(*map(recursive_free_symbols, data))
+                data = data.item()
             return data.free_symbols if hasattr(data, "free_symbols") else {}
         data, _dagger = params.get("data", None), params.get("_dagger", False)
         self._free_symbols = recursive_free_symbols(data)
